@@ -190,6 +190,56 @@ def user_classes():
 
     _classes.update(Thresh=Thresh, LowBits=LowBits, Stepper=Stepper, Window=Window, Clip=Clip)
 
+    # parameterised hierarchy: children whose parameter is BOUND to a parameter of the parent (parent.getParameter(..)) and
+    # read it with getParameterValue only on some cycles
+    class Scale(py4hw.Logic):
+        def __init__(self, parent, name, a, load, r, gain):
+            super().__init__(parent, name)
+            self.a = self.addIn('a', a)
+            self.load = self.addIn('load', load)
+            self.r = self.addOut('r', r)
+            self.addParameter('GAIN', gain)
+
+        def clock(self):
+            if (self.load.get() == 1):
+                self.r.prepare(self.a.get() * self.getParameterValue('GAIN'))
+
+        def structureName(self):
+            return 'Scale{}'.format(self.r.getWidth())
+
+    class Offset(py4hw.Logic):
+        def __init__(self, parent, name, a, r, off):
+            super().__init__(parent, name)
+            self.a = self.addIn('a', a)
+            self.r = self.addOut('r', r)
+            self.addParameter('OFF', off)
+
+        def propagate(self):
+            if (self.a.get() != 0):
+                self.r.put(self.a.get() + self.getParameterValue('OFF'))
+            else:
+                self.r.put(0)
+
+    class PTop(py4hw.Logic):
+        def __init__(self, parent, name, a, b, load, r, gain, sh, variant=0):
+            super().__init__(parent, name)
+            self.addIn('a', a); self.addIn('b', b); self.addIn('load', load); self.addOut('r', r)
+            self.addParameter('GAIN', gain)
+            self.addParameter('SH', sh)
+            w = r.getWidth()
+            r1 = self.wire('r1', w); r2 = self.wire('r2', w); s = self.wire('s', w)
+            Scale(self, 's1', a, load, r1, self.getParameter('GAIN'))
+            Scale(self, 's2', b, load, r2, self.getParameter('GAIN') if variant & 1 else gain + 1)
+            py4hw.Add(self, 'add', r1, r2, s)
+            t = self.wire('t', w)
+            if variant & 2:
+                py4hw.ShiftLeftConstant(self, 'shl', s, self.getParameter('SH'), t)      # inlined child, bound parameter
+            else:
+                py4hw.ShiftRightConstant(self, 'shr', s, sh, t)
+            Offset(self, 'off', t, r, self.getParameter('SH') if variant & 4 else 2)
+
+    _classes.update(Scale=Scale, Offset=Offset, PTop=PTop)
+
     class Box2(py4hw.Logic):
         """structural user block: r = (a + b) ; lt = a < b  (no structureName: instance-unique module name)"""
         def __init__(self, parent, name, a, b, r, lt, variant=0):
@@ -245,14 +295,14 @@ def user_classes():
     return _classes
 
 
-FAMILIES = ['rand', 'lib', 'beh', 'alias', 'clk2', 'beh2']
+FAMILIES = ['rand', 'lib', 'beh', 'alias', 'clk2', 'beh2', 'param']
 
 
 def build(family, seed):
     """reproducible from (family, seed).  All circuits are legal (every port connected)."""
     py4hw = common.quiet_import()
     U = user_classes()
-    rng = random.Random(seed * 7919 + {'rand': 1, 'lib': 2, 'beh': 3, 'alias': 4, 'bad': 5, 'clk2': 6, 'beh2': 7}[family])
+    rng = random.Random(seed * 7919 + {'rand': 1, 'lib': 2, 'beh': 3, 'alias': 4, 'bad': 5, 'clk2': 6, 'beh2': 7, 'param': 8}[family])
     with quiet():
         if family == 'rand':
             for attempt in range(8):          # a library constructor may reject a random configuration: legal circuits only
@@ -320,6 +370,15 @@ def build(family, seed):
                     U[k](hw, 'u%d' % i, a, r, rng.randrange(1, 6))
                 else:
                     U[k](hw, 'u%d' % i, a, r)
+            return Circ(family, seed, hw, ins)
+        if family == 'param':
+            w = rng.choice([8, 12, 16])
+            a = hw.wire('pa', w); b = hw.wire('pb', w); load = hw.wire('load'); r = hw.wire('pr', w)
+            U['PTop'](hw, 'top', a, b, load, r, rng.randrange(2, 6), rng.randrange(1, 4), rng.randrange(8))
+            ins = [a, b, load]
+            if rng.random() < .5:                                         # a second parameterised block, other values
+                r2 = hw.wire('pr2', w)
+                U['PTop'](hw, 'top2', b, a, load, r2, rng.randrange(2, 6), rng.randrange(1, 4), rng.randrange(8))
             return Circ(family, seed, hw, ins)
         if family == 'clk2':
             # several clock domains: a named ClockDriver on a structural sub-block, registers below it (2-3 levels).
